@@ -181,8 +181,8 @@ class Check:
 class Alias:
     """report another module's rule instances under this property's own rule id (shared clauses)"""
 
-    def __init__(self, ck, src, dst):
-        self.ck, self.src, self.dst = ck, src, dst
+    def __init__(self, ck, src, dst, skip=()):
+        self.ck, self.src, self.dst, self.skip = ck, src, dst, tuple(skip)
 
     def __getattr__(self, name):
         f = getattr(self.ck, name)
@@ -190,8 +190,11 @@ class Alias:
             def g(*a, **kw):
                 a = list(a)
                 idx = 1 if name == "check" else 0
-                if len(a) > idx and isinstance(a[idx], str) and a[idx].startswith(self.src):
-                    a[idx] = a[idx].replace(self.src, self.dst, 1)
+                if len(a) > idx and isinstance(a[idx], str):
+                    if any(a[idx].startswith(x) for x in self.skip):
+                        return True      # a clause whose (known) findings belong to the owning property only
+                    if a[idx].startswith(self.src):
+                        a[idx] = a[idx].replace(self.src, self.dst, 1)
                 return f(*a, **kw)
             return g
         return f
